@@ -39,6 +39,71 @@ def build_exec_cfg(fn):
     return CFG(fn, raises=student_raises, flatten=(cls, PRIMITIVES) if isinstance(cls, ast.ClassDef) else None)
 
 
+_ROLE_CACHE = {}
+
+
+def stack_roles(ctx, sym, mod):
+    """Names of the sandbox's two stacks, found by what the code does with them rather than by their spelling:
+    'patches' is the list attribute Sandbox._start_patches pushes onto, 'stdout' the one _start_mocking pushes the
+    freshly created capture buffer onto. Falls back to the historical names."""
+    key = ctx.repo.hexdigest()
+    if key in _ROLE_CACHE:
+        return _ROLE_CACHE[key]
+    from .. import symexec
+    from ..fdeval import Obj, Raised, Inconclusive
+    roles = {'patches': '_current_patches', 'stdout': '_current_stdout'}
+    try:
+        init = mod.func('Sandbox.__init__')
+        lists = [t.attr for n in ast.walk(init) if isinstance(n, ast.Assign) and isinstance(n.value, ast.List)
+                 and not n.value.elts for t in n.targets if is_self_attr(t)]
+        if lists:
+            me = symexec.self_obj(mod, 'Sandbox', **{a: [] for a in lists})
+            probe = Obj('probe-patch')
+            symexec.method(probe, 'start', lambda: None)
+            fd = symexec.new_fd(sym, mod, calls={'threading.get_ident': lambda: 1, 'get_ident': lambda: 1})
+            fd.call_function(mod.func('Sandbox._start_patches'), [probe], bound_self=me)
+            grew = [a for a in lists if me.attrs[a]]
+            if len(grew) == 1:
+                roles['patches'] = grew[0]
+            me2 = symexec.self_obj(mod, 'Sandbox', **{a: [] for a in lists})
+            me2.attrs.update(_module_overrides={'__builtins__': {}}, data={}, modules={})
+            for name in ('mock_function', '_track_inputs', '_reset_builtins', '_mock_builtins', '_start_patches'):
+                symexec.method(me2, name, lambda *a, **k: None)
+            made = []
+
+            def buf(*a, **k):
+                o = Obj('buffer')
+                made.append(o)
+                return o
+            fd2 = symexec.new_fd(sym, mod, calls={'io.StringIO': buf, 'StringIO': buf, 'PrintingStringIO': buf,
+                                                  'patch': lambda *a, **k: Obj('patch'),
+                                                  'patch.dict': lambda *a, **k: Obj('patch.dict')},
+                                 extra={'sys.modules': {}})
+            fd2.call_function(mod.func('Sandbox._start_mocking'), [Obj('context', inputs=[])], bound_self=me2)
+            grew = [a for a in lists if any(x in made for x in me2.attrs[a])]
+            if len(grew) == 1:
+                roles['stdout'] = grew[0]
+    except (Raised, Inconclusive, AnalysisError, KeyError):
+        pass
+    _ROLE_CACHE[key] = roles
+    return roles
+
+
+def sandbox_self(ctx, sym, mod, patches=None, stdout=None, **attrs):
+    """A symbolic Sandbox `self` whose two stacks are preset under whatever names the code uses for them."""
+    from .. import symexec
+    roles = stack_roles(ctx, sym, mod)
+    attrs[roles['patches']] = [] if patches is None else patches
+    attrs[roles['stdout']] = [] if stdout is None else stdout
+    me = symexec.self_obj(mod, 'Sandbox', **attrs)
+    me.attrs['__roles__'] = roles
+    return me
+
+
+def stack(me, role):
+    return me.attrs[me.attrs['__roles__'][role]]
+
+
 def execute_scenarios(ctx, sym, mod):
     """Sandbox._execute executed abstractly for every raise point (compile, tracer enter, exec, tracer exit, none) x
     exception class. Yields (where, kind, observations)."""
@@ -246,16 +311,16 @@ def cross_thread_release(ctx, sym, mod, rule):
                     'current_thread': lambda: Obj('thread', ident=current['ident'], name='thread-%d' % current['ident'])}
     rec = symexec.Recorder()
     p1, p2 = patch_obj('p1', rec), patch_obj('p2', rec)
-    me = symexec.self_obj(mod, 'Sandbox', _current_patches=[], _current_stdout=[])
+    me = sandbox_self(ctx, sym, mod)
     fd = symexec.new_fd(sym, mod, calls=thread_calls)
     _, raised1 = symexec.run(fd, stp, [p1, p2], bound_self=me, what='Sandbox._start_patches')
     current['ident'] = 2
     _, raised2 = symexec.run(fd, sp, [], bound_self=me, what='Sandbox._stop_patches')
     stops = sorted(e[0] for e in rec.events if e[0].endswith('.stop'))
     ctx.check(raised1 is None and raised2 is None and stops == ['p1.stop', 'p2.stop'] and
-              not me.attrs['_current_patches'], rule, '_stop_patches:other-thread', mod, sp,
+              not stack(me, 'patches'), rule, '_stop_patches:other-thread', mod, sp,
               "patches started in one thread are not stopped by _stop_patches called from another thread (stopped: "
-              "%s, stack left: %d)" % (stops, len(me.attrs['_current_patches'])),
+              "%s, stack left: %d)" % (stops, len(stack(me, 'patches'))),
               "a threaded run that times out: the grader's arm cannot release what the abandoned student thread "
               "started, so sys.stdout / sys.modules / time.sleep stay patched")
 
@@ -289,7 +354,7 @@ def r3_release_complete_and_owned(ctx, mod, sym):
         rec = symexec.Recorder()
         p1, p2, p3 = patch_obj('p1', rec), patch_obj('p2', rec), patch_obj('p3', rec)
         groups = [(p1,), (p2, p3)][2 - depth:] if depth else []
-        me = symexec.self_obj(mod, 'Sandbox', _current_patches=[], _current_stdout=[])
+        me = sandbox_self(ctx, sym, mod)
         fd = symexec.new_fd(sym, mod, calls=thread_calls)
         for g_ in groups:
             symexec.run(fd, stp, list(g_), bound_self=me, what='Sandbox._start_patches')
@@ -298,11 +363,11 @@ def r3_release_complete_and_owned(ctx, mod, sym):
         want_events = sorted(x._name + '.stop' for x in (groups[-1] if groups else ()))
         got_events = sorted(e[0] for e in rec.events)
         ok = raised is None and got_events == want_events and \
-            len(me.attrs['_current_patches']) == max(0, len(groups) - 1)
+            len(stack(me, 'patches')) == max(0, len(groups) - 1)
         ctx.check(ok, 'R3', '_stop_patches:stops-all[depth=%d]' % depth, mod, sp,
                   "with %d group(s) on the stack _stop_patches performs %s and leaves %d group(s)%s; it must stop "
                   "exactly the patches of the newest group (%s) and pop that group" % (
-                      depth, got_events, len(me.attrs['_current_patches']),
+                      depth, got_events, len(stack(me, 'patches')),
                       '' if raised is None else ' (raises %s)' % raised.kind, want_events),
                   "a patch of the popped group (sys.modules / sys.stdout / time.sleep) stays active, or an outer "
                   "execution's patches are stopped")
@@ -311,10 +376,10 @@ def r3_release_complete_and_owned(ctx, mod, sym):
     rec = symexec.Recorder()
     p1, p2 = patch_obj('p1', rec), patch_obj('p2', rec)
     older = (patch_obj('older', rec),)
-    me = symexec.self_obj(mod, 'Sandbox', _current_patches=[older], _current_stdout=[])
+    me = sandbox_self(ctx, sym, mod, patches=[older])
     fd = symexec.new_fd(sym, mod, calls=thread_calls)
     _, raised = symexec.run(fd, stp, [p1, p2], bound_self=me, what='Sandbox._start_patches')
-    st_ = me.attrs['_current_patches']
+    st_ = stack(me, 'patches')
     ok = raised is None and sorted(e[0] for e in rec.events) == ['p1.start', 'p2.start'] and len(st_) == 2 and \
         st_[0] is older
     ctx.check(ok, 'R3', '_start_patches:tracks-all', mod, stp,
@@ -327,12 +392,12 @@ def r3_release_complete_and_owned(ctx, mod, sym):
     symexec.method(older_buf, 'getvalue', lambda: 'older text')
     symexec.method(buf, 'flush', lambda: None)
     symexec.method(older_buf, 'flush', lambda: None)
-    me = symexec.self_obj(mod, 'Sandbox', _current_stdout=[older_buf, buf], _current_patches=[])
+    me = sandbox_self(ctx, sym, mod, stdout=[older_buf, buf])
     symexec.method(me, '_stop_patches', rec.stub('_stop_patches'))
     symexec.method(me, 'append_output', rec.stub('append_output'))
     fd = symexec.new_fd(sym, mod)
     _, raised = symexec.run(fd, sm, [Obj('context')], bound_self=me, what='Sandbox._stop_mocking')
-    ok = raised is None and len(rec.named('_stop_patches')) == 1 and me.attrs['_current_stdout'] == [older_buf]
+    ok = raised is None and len(rec.named('_stop_patches')) == 1 and stack(me, 'stdout') == [older_buf]
     # a student program may close its own stdout: reading the buffer then raises, and the patches must already be gone
     from ..fdeval import Raised as _Raised
     rec2 = symexec.Recorder()
@@ -342,7 +407,7 @@ def r3_release_complete_and_owned(ctx, mod, sym):
         raise _Raised('ValueError', 'I/O operation on closed file')
     for mname in ('getvalue', 'flush', 'read', 'seek', 'tell', 'close'):
         symexec.method(closed, mname, _closed)
-    me2 = symexec.self_obj(mod, 'Sandbox', _current_stdout=[closed], _current_patches=[])
+    me2 = sandbox_self(ctx, sym, mod, stdout=[closed])
     symexec.method(me2, '_stop_patches', rec2.stub('_stop_patches'))
     symexec.method(me2, 'append_output', rec2.stub('append_output'))
     symexec.run(symexec.new_fd(sym, mod), sm, [Obj('context')], bound_self=me2, what='Sandbox._stop_mocking')
@@ -353,13 +418,14 @@ def r3_release_complete_and_owned(ctx, mod, sym):
               "sys.modules and time.sleep patched")
     ctx.check(ok, 'R3', '_stop_mocking:shape', mod, sm,
               "_stop_mocking does not call _stop_patches() once and pop exactly this execution's buffer "
-              "(%d call(s), stack %r)" % (len(rec.named('_stop_patches')), me.attrs['_current_stdout']),
+              "(%d call(s), stack %r)" % (len(rec.named('_stop_patches')), stack(me, 'stdout')),
               "after an execution one of the two stacks keeps a frame")
     # ownership of the stacks
-    allowed = {'_current_patches': {'append': {'Sandbox._start_patches'}, 'pop': {'Sandbox._stop_patches'},
-                                    'assign': {'Sandbox.__init__'}},
-               '_current_stdout': {'append': {'Sandbox._start_mocking'}, 'pop': {'Sandbox._stop_mocking'},
-                                   'assign': {'Sandbox.__init__'}}}
+    roles_ = stack_roles(ctx, sym, mod)
+    allowed = {roles_['patches']: {'append': {'Sandbox._start_patches'}, 'pop': {'Sandbox._stop_patches'},
+                                   'assign': {'Sandbox.__init__'}},
+               roles_['stdout']: {'append': {'Sandbox._start_mocking'}, 'pop': {'Sandbox._stop_mocking'},
+                                  'assign': {'Sandbox.__init__'}}}
     for attr, table in allowed.items():
         ws = writers_of(mod, 'Sandbox', attr)
         ctx.floor('R3', 'writers of ' + attr, len(ws), 3)
@@ -561,34 +627,52 @@ def r6_private_builtins(ctx, mod):
     ctx.rule('R6', "_reset_builtins gives the student namespace a fresh dict and copies into it; the interpreter's "
                    "real builtins dict (mocked._default_builtins) is never stored into student data; "
                    "_mock_builtins writes only through data[...]")
+    # _reset_builtins and _mock_builtins executed abstractly: the namespace's builtins table is a dict of its own,
+    # never the interpreter's real table (a marker object), and every later write lands in the student's data only
+    from .. import symexec
+    from ..fdeval import Obj
+    sym = Symbols(ctx.repo)
     fn = mod.func('Sandbox._reset_builtins')
     ctx.analysed_function(mod, fn)
-    param = fn.args.args[0].arg if fn.args.args and fn.args.args[0].arg != 'self' else fn.args.args[-1].arg
-    fresh = [n for n in body_walk(fn) if isinstance(n, ast.Assign) and isinstance(n.targets[0], ast.Subscript)
-             and norm(n.targets[0].value) == param and norm(n.targets[0].slice) == "'__builtins__'"]
-    ok = len(fresh) == 1 and (isinstance(fresh[0].value, ast.Dict) and not fresh[0].value.keys
-                              or (isinstance(fresh[0].value, ast.Call) and call_name(fresh[0].value) in ('dict',)
-                                  and (not fresh[0].value.args or
-                                       'default_builtins' in norm(fresh[0].value.args[0]))))
-    ctx.check(ok, 'R6', '_reset_builtins:fresh-dict', mod, fresh[0] if fresh else fn,
-              "data['__builtins__'] is not a freshly created dict (or a copy)",
+    real = {'print': symexec.marker('real print'), 'len': symexec.marker('real len')}
+    snapshot = dict(real)
+    mocked_obj = Obj('mocked', _default_builtins=real, ORIGINAL_BUILTINS=dict(real))
+    mocked_obj.attrs['__open__'] = True
+    mocked_obj.attrs['__unknown_method__'] = lambda nm, *a, **k: Obj('mocked.%s(...)' % nm, made_by=nm, args=a)
+    data = {'__builtins__': real, 'leftover': 1}
+    fd = symexec.new_fd(sym, mod, extra={'mocked': mocked_obj})
+    is_static = any(dotted(d) == 'staticmethod' for d in fn.decorator_list)
+    me = symexec.self_obj(mod, 'Sandbox')
+    _, raised = symexec.run(fd, fn, [data], bound_self=None if is_static else me, what='Sandbox._reset_builtins')
+    table = data.get('__builtins__')
+    ok = raised is None and isinstance(table, dict) and table is not real and table == snapshot and real == snapshot
+    ctx.check(ok, 'R6', '_reset_builtins:fresh-dict', mod, fn,
+              "after _reset_builtins data['__builtins__'] is %s" % (
+                  'the interpreter\'s own builtins table' if table is real else
+                  ('not a copy of the default builtins (%r)' % (sorted(table) if isinstance(table, dict) else table,))),
               "student code or _mock_builtins then mutates the interpreter's real builtins for the whole process")
+    mbf = mod.func('Sandbox._mock_builtins')
+    if isinstance(table, dict) and table is not real:
+        overrides = {'print': False, 'len': True, 'open': symexec.marker('restricted open')}
+        _, raised = symexec.run(fd, mbf, [data, overrides], bound_self=me, what='Sandbox._mock_builtins')
+        ctx.check(raised is None and real == snapshot and mocked_obj.attrs['_default_builtins'] == snapshot and
+                  mocked_obj.attrs['ORIGINAL_BUILTINS'] == snapshot, 'R6', '_mock_builtins:writes-through-data', mod, mbf,
+                  "_mock_builtins changes the interpreter's real builtins table (or the saved originals) instead of "
+                  "the student's data only", "builtins of the grader process are replaced")
     # sweep: no alias of _default_builtins stored
     n = 0
     for m in ctx.repo.modules.values():
         if not m.name.startswith('pedal.sandbox'):
             continue
         for node in ast.walk(m.tree):
-            if isinstance(node, ast.Assign) and '_default_builtins' in norm(node.value) and \
-                    not isinstance(node.value, (ast.Dict, ast.Subscript, ast.Call)) and m.name != 'pedal.sandbox.mocked':
+            if isinstance(node, ast.Assign) and isinstance(node.value, (ast.Name, ast.Attribute)) and \
+                    norm(node.value) in ('mocked._default_builtins', '_default_builtins') \
+                    and m.name != 'pedal.sandbox.mocked':
                 n += 1
                 ctx.fail('R6', 'alias-of-real-builtins@' + getattr(enclosing_function(node), '_qualname', m.name),
                          m, node, "the real builtins dict is aliased into sandbox state",
                          "a later data['__builtins__'][name] = ... patches the interpreter itself, never restored")
-            if isinstance(node, ast.Assign) and isinstance(node.value, (ast.Name, ast.Attribute)) and \
-                    norm(node.value) in ('mocked._default_builtins', '_default_builtins', '__builtins__') \
-                    and m.name != 'pedal.sandbox.mocked':
-                pass
+    return
     mb = mod.func('Sandbox._mock_builtins')
     ctx.analysed_function(mod, mb)
     dparam = mb.args.args[1].arg
